@@ -75,15 +75,23 @@ static void case_ew(vh::Rng& r) {
 }
 
 static void case_running(vh::Rng& r, gen::CerrCapture& cap) {
-   const double as = r.chance(0.2) ? r.U(0.10, 0.13) : r.U(0.05, 0.3), mt = r.U(100, 300), mb = r.U(2, 6), mz = 91.1876, mtau = 1.777, aem = r.LU(1e-3, 0.1);
-   J c; c.d("alpha_s_mz", as).d("mt", mt).d("mb", mb).d("alpha_em", aem);
+   const double as = r.chance(0.2) ? r.U(0.10, 0.13) : r.U(0.05, 0.3), mt = r.U(100, 300), mb = r.U(2, 6), mz = r.chance(0.5) ? 91.1876 : r.U(60, 130), mtau = 1.777, aem = r.LU(1e-3, 0.1);
+   J c; c.d("alpha_s_mz", as).d("mt", mt).d("mb", mb).d("alpha_em", aem).d("mz", mz);
    ++out->conclusive;
+   // call history: before the calls that are judged, the same functions are called with arguments that differ in exactly one place (the scale at which
+   // alpha_s is given, alpha_s itself, mb or mt) - a value remembered from that call under an incomplete key would surface in the clauses below
+   const int hist = r.range(6);
+   static const char* const HIST[6] = {"none", "previous-call:other-mz", "previous-call:other-alpha_s", "previous-call:other-mb", "previous-call:other-mt", "previous-call:other-mz(DRbar)"};
+   c.str("history", HIST[hist]);
+   { const double f = r.U(0.6, 1.5);
+     if (hist == 1) calculate_mb_SM6_MSbar(mb, mt, as, mz * f, 100.0); else if (hist == 2) calculate_mb_SM6_MSbar(mb, mt, as * f, mz, 100.0); else if (hist == 3) calculate_mb_SM6_MSbar(mb * f, mt, as, mz, 100.0);
+     else if (hist == 4) { calculate_mb_SM6_MSbar(mb, mt * f, as, mz, 100.0); calculate_mt_SM6_MSbar(mt * f, as, mz, 100.0); } else if (hist == 5) calculate_mb_SM5_DRbar(mb, as, mz * f); }
    cap.take();
    // reference Lambda_QCD
    LD lam = 0.217L; const bool bracketed = ref_lambda(as, mz, lam);
    const bool landau = static_cast<double>(lam) >= mb / 2;   // alpha_s(mb) evaluated at or below the Landau pole of Eq. (9)
    c.ld("ref_lambda_qcd", lam).i("bracketed", bracketed).i("landau", landau);
-   const std::string cell = std::string(bracketed ? "bracketed" : "fallback") + (landau ? "|landau" : "") + "|as" + vh::decade(as);
+   const std::string cell = std::string(bracketed ? "bracketed" : "fallback") + (landau ? "|landau" : "") + "|as" + vh::decade(as) + "|" + HIST[hist];
    // scan of scales
    double prev_b = 1e300, prev_t = 1e300, prev_l = 1e300; bool mono = true, fin = true; double worst_grp = 0;
    const double k = r.U(1.1, 10);
